@@ -42,3 +42,31 @@ def emit(R, contracts=None, loops=None):
                                                                                "local_weights", "data", "num_dimensions"], slack=12),
             "drops": ["#pragma omp parallel for (3 loops)", "`mutable` becomes an explicit cast of the const receiver"]}
     return "\n".join(outs) + "\n", info
+
+EVAL_SPECS = [
+    ("evalBasis", r'double\s+GridWavelet::evalBasis\s*\(\s*const\s+int\s+p\[\]\s*,\s*const\s+double\s+x\[\]\s*\)\s*const', "double GridWavelet_evalBasis(const GridWavelet *self, const int p[], const double x[])"),
+    ("evalIntegral", r'double\s+GridWavelet::evalIntegral\s*\(\s*const\s+int\s+p\[\]\s*\)\s*const', "double GridWavelet_evalIntegral(const GridWavelet *self, const int p[])"),
+    ("evalDiffBasis", r'void\s+GridWavelet::evalDiffBasis\s*\(\s*const\s+int\s+p\[\]\s*,\s*const\s+double\s+x\[\]\s*,\s*double\s+jacobian\[\]\s*\)\s*const', "void GridWavelet_evalDiffBasis(const GridWavelet *self, const int p[], const double x[], double jacobian[])"),
+]
+
+def emit_eval(R, contracts=None):
+    """The three basis evaluators that the weight queries call: GridWavelet::evalBasis, evalIntegral, evalDiffBasis."""
+    text = X.strip_comments(X.read_source(CPP))
+    outs, fns, srcs, emis = [], [], [], []
+    for nm, sig, chdr in EVAL_SPECS:
+        (p,) = X.cut(CPP, sig, text)
+        b = p.body
+        b = R.sub("R10-rule-call", r'\brule1D\s*\.\s*eval\s*<\s*([01])\s*>\s*\(', r'RuleWavelet_eval\1(self, ', b)
+        b = R.sub("R10-rule-call", r'\brule1D\s*\.\s*getWeight\s*\(', 'RuleWavelet_getWeight(self, ', b)
+        b = X.r5_local_vectors(R, b, {"value_cache": "TSG_NDMAX"})
+        b = R.sub("R10-member", r'(?<![\w.>_])num_dimensions\b', 'self->num_dimensions', b)
+        X.check_leftover(chdr + b, nm)
+        name = "GridWavelet_" + nm
+        outs.append('#line %d "%s"\n%s' % (p.line, X.REPO + "/" + p.rel, X.splice(chdr, b, (contracts or {}).get(name), None)))
+        fns.append({"name": "GridWavelet::" + nm, "file": p.rel, "line": p.line, "loops": X.count_loops(b)})
+        srcs.append(p.body); emis.append(b)
+    R.require({"R10-rule-call": 4, "R10-member": 5, "R5-local-vector": 1})
+    info = {"functions": fns, "rules_fired": {k: v for k, v in R.counts.items() if v},
+            "fidelity": X.fidelity("\n".join(srcs), "\n".join(emis), extra_vocab=["rule1D", "eval", "getWeight", "value_cache", "num_dimensions"], slack=8),
+            "drops": ["the template argument of rule1D.eval<mode> becomes part of the callee name"]}
+    return "\n".join(outs) + "\n", info
